@@ -45,6 +45,9 @@ ASSUMPTIONS = [
     "edges, adds no black-listed and only white-listed edges and keeps in-degree <= max_indegree at the node gaining a parent",
     "start graph = start_dag plus fixed_edges (the documented seeding); in-degree bound = max(max_indegree, in-degree there)",
     "tabu: a legal move may be withheld only if it undoes one of the last tabu_length applied moves",
+    "a start_dag that already contains a black-listed edge is a contradictory request: either a graph without such an edge "
+    "or a ValueError naming the black list is accepted, a returned graph containing the edge is not",
+    "documented refusals asserted, not excluded: fixed_edges closing a cycle with start_dag, TAN root_node == class_node",
     "float comparisons of score deltas at 1e-8 absolute; tree weights at 1e-9 relative",
     "all n^(n-2) labelled trees (Pruefer) / all DAGs on <= 4 nodes are enumerated by the oracle",
     "sklearn's adjusted/normalized MI are trusted as definitions when the own re-implementation disagrees (counted in notes)",
